@@ -357,6 +357,41 @@ def h_redefinition_modes(eng, mode):
         eng.prove(Eq(v, x * b), f"{mode}:earlier-spelling-has-no-stale-meaning:{old}")
 
 
+def h_decimal_literals_other_types(eng, tname):
+    """the same decimal-literal file in a float and in a Decimal registry: every number has the
+    registry's type and the conversions are right to the precision of that type"""
+    import decimal
+
+    ntype = {"float": float, "Decimal": decimal.Decimal}[tname]
+    tol = Fraction(1, 10**14) if ntype is float else Fraction(1, 10**24)
+    F = Fraction
+    lines = [
+        "m = [length]", "s = [time]", "kel = [temp]", "cc- = 1e-2 = c-", "dd- = 0.1",
+        "inch = 0.0254 * m", "ft = 0.3048 * m", "league = 4.828032e3 * m", "thou = inch / 1e3",
+        "degA = 1.8 * kel; offset: 255.372",
+        "@context(n=1.33) cx", "    [length] -> [time]: value * 3.3356409519815204e-9 * n * s / m", "    ft = 0.3 * m", "@end",
+    ]  # fmt: skip
+    ureg = pint.UnitRegistry(lines, non_int_type=ntype, on_redefinition="raise")
+    xv = ntype("2.5")
+    Qy = ureg.Quantity
+
+    def close(got, want, label):
+        eng.prove(type(got) is ntype, f"{tname}:{label}:type")
+        eng.prove(abs(F(got) / want - 1) <= tol, f"{tname}:{label}:value")
+
+    close(Qy(xv, "inch").to("m").magnitude, F("2.5") * F("0.0254"), "factor")
+    close(Qy(xv, "league").to("m").magnitude, F("2.5") * F("4828.032"), "exponent-notation")
+    close(Qy(xv, "thou").to("m").magnitude, F("2.5") * F("0.0000254"), "divisor")
+    close(Qy(xv, "ccm").to("m").magnitude, F("2.5") * F("0.01"), "prefix")
+    close(Qy(xv, "ddinch").to("m").magnitude, F("2.5") * F("0.00254"), "prefix-decimal")
+    close(Qy(xv, "degA").to("kel").magnitude, F("2.5") * F("1.8") + F("255.372"), "scale-and-offset")
+    close(Qy(xv, "m").to("s", "cx").magnitude, F("2.5") * F("3.3356409519815204e-9") * F("1.33"), "context-default-and-relation")
+    with ureg.context("cx"):
+        close(Qy(xv, "ft").to("m").magnitude, F("2.5") * F("0.3"), "context-redefinition")
+    close(Qy(xv, "ft").to("m").magnitude, F("2.5") * F("0.3048"), "redefinition-scoped")
+    eng.prove(all(type(v) is ntype for v in (ureg._units["inch"].converter.scale, ureg._prefixes["cc"].converter.scale, ureg._contexts["cx"].defaults["n"], ureg._units["degA"].converter.offset)), f"{tname}:numeric-types-of-definitions")
+
+
 def h_random_dag(eng, k):
     """a seeded random definition file: base units, a DAG of derived units with symbolic scales and
     small integer exponents over earlier units, aliases, symbols ('_' placeholders), two prefixes,
@@ -533,6 +568,8 @@ def cases(tier, seed):
         out.append(Case("H10.c", path, M, "h_loading_paths", {"path": path}, opts=opts, validate=1 if path in ("file", "load_definitions") else 0, weight=6.0))
     for kind in ILL_FORMED:
         out.append(Case("H10.e", kind, M, "h_ill_formed", {"kind": kind}, opts=opts, validate=1))
+    for tname in ("float", "Decimal"):
+        out.append(Case("H10.a", f"decimal-literals:{tname}-registry", M, "h_decimal_literals_other_types", {"tname": tname}, kind="conc"))
     for mode in ("raise", "warn", "ignore"):
         out.append(Case("H10.e", f"redefinition-mode:{mode}", M, "h_redefinition_modes", {"mode": mode}, opts=opts, validate=1))
     for path in ("lines", "file", "load_definitions"):
